@@ -144,7 +144,20 @@ fn reconfig(
         (base.k, base.r)
     };
     let mut cfg = Cfg { kind, engine, k, r, sb: base.sb };
+    // every fourth reset / renew goes to exactly the configuration already in force (a "no-op"
+    // reconfiguration must still forget pending shards)
+    if let (true, Some(c)) = ((how == "reset" || how == "renew") && rng.chance(1, 4), cur) {
+        if how == "reset" || c.kind != "rs" {
+            cfg = Cfg { kind: if how == "reset" { c.kind.clone() } else { cfg.kind.clone() }, engine: cfg.engine.clone(), k: c.k, r: c.r, sb: c.sb };
+            // a renew to another flavour must still support the counts
+            let env_kind = if cfg.kind == "rs" { "default" } else { cfg.kind.as_str() };
+            if !envelope(env_kind, cfg.k, cfg.r) {
+                cfg.kind = c.kind.clone();
+            }
+        }
+    }
     let mut expect_fail = false;
+    let intended = cfg.clone();
     if fail {
         expect_fail = true;
         match rng.below(3) {
@@ -167,6 +180,11 @@ fn reconfig(
         _ => format!("{} {} {} {} {} {} {}", obj, how, cfg.kind, cfg.engine, cfg.k, cfg.r, cfg.sb),
     };
     out.push(HLine { line, expect_fail });
+    if expect_fail && how == "reset" && rng.chance(1, 2) {
+        // the caller corrects the rejected argument and retries the reset it intended
+        out.push(HLine { line: format!("{} reset {} {} {}", obj, intended.k, intended.r, intended.sb), expect_fail: false });
+        return Some(intended);
+    }
     if expect_fail {
         None
     } else {
